@@ -90,7 +90,7 @@ var parseLoopDeltas = []cloneDelta{
 		[]string{"call (*parser.Parser).currentLocation()", "call errors.IncompleteStatementError(_,\"\")", "call fmt.Errorf(\"parsing cancelled: %w\",_)", "call invoke Err()", "store Parser.ctx"},
 		"context polls, the stored context and its deferred reset"},
 	{"pkg/sql/parser", "Parser", "parseWithRecovery",
-		[]string{"call (*parser.Parser).checkStrictEmpty()", "call (*parser.Parser).checkStrictEmptySemicolon()", "call ast.NewAST()", "call ast.ReleaseAST(_)", "call errors.IncompleteStatementError(nil,\"\")"},
+		[]string{"call (*parser.Parser).checkStrictEmpty()", "call (*parser.Parser).checkStrictEmptySemicolon()", "call errors.InvalidSyntaxError(\"empty statement not allowed in strict mode\"*", "call ast.NewAST()", "call ast.ReleaseAST(_)", "call errors.IncompleteStatementError(nil,\"\")"},
 		[]string{"call (*parser.Parser).currentLocation()", "call (*parser.Parser).synchronize()", "call (models.TokenType).String()", "call invoke Error()"},
 		"recovery records the error, forces progress and synchronises instead of returning; it returns statements, not a pooled AST, and documents success for empty input"},
 }
